@@ -28,7 +28,7 @@ CHECKS = {
    "Tie votes accept either outcome; four voting peers.", "DESIGN.md section 6, C18"),
   "C05": ("E3-enumeration", "exploration",
    "bounded-exhaustive grammar enumeration through the real decoder (catch_unwind) and delivery of the single-deviation neighbourhood to live real nodes on the simulated network, followed by liveness probes",
-   "All single and double field-level deviations (17 classes x every field) and structural damage of all 17 KRPC message shapes go through the real decoder; every single-deviation datagram is delivered to live server- and client-mode nodes, as the (right address, right tid) reply to every lookup kind and - with all error codes and code mixes in all arrival orders - to every put kind; all reply-latency timelines of length 7 (quick) / 9 (thorough) over {10 ms, 520 ms, 3 s}. Actor threads must survive, probes (ping, info, put+get) must succeed, no API future may panic.",
+   "All single and double field-level deviations (17 classes x every field), every subset of fields absent, and structural damage of all 17 KRPC message shapes go through the real decoder; every single-deviation datagram is delivered to live server- and client-mode nodes, as the (right address, right tid) reply to every lookup kind and - with all error codes and code mixes in all arrival orders - to every put kind; all reply-latency timelines of length 7 (quick) / 9 (thorough) over {10 ms, 520 ms, 3 s}. Actor threads must survive, probes (ping, info, put+get) must succeed, no API future may panic.",
    "A grammar neighbourhood, not all byte strings; release arithmetic.", "DESIGN.md section 6, C05"),
   "C17": ("E1-simnet-explorer", "model_checking",
    "exhaustive enumeration of second-call relations x placements and of storer reply splits x arrival orders against a real node over a simulated network",
